@@ -32,6 +32,9 @@ MANIFEST = {
             'sequence variables (sequence-* and p_* spellings), the element '
             'attribute, and a probe after the end tag; every printed value '
             'must equal the value computed from the element position; '
+            'every configuration is rendered once more with a body that '
+            'raises on the first element under an enclosing try (nothing '
+            'stays bound); '
             're-iterable containers are rendered a second time (same '
             'result), and all nestings of two loops of length 0..3 check '
             'that the inner loop shadows the outer variables only until '
@@ -198,9 +201,32 @@ def body_source(kind, opts, batch, pname='p'):
 _t = {}
 
 
-def template(kind, opts, batch, pname='p'):
-    key = (kind, tuple(opts), batch, pname)
+def _boom():
+    raise RuntimeError('boom')
+
+
+def template(kind, opts, batch, pname='p', abort=False):
+    key = (kind, tuple(opts), batch, pname, abort)
     t = _t.get(key)
+    if t is None and abort:
+        # the body raises on the first displayed element; an enclosing try
+        # handles it: nothing the loop bound may be visible afterwards
+        from DocumentTemplate import HTML
+        attrs = []
+        if kind == 'map':
+            attrs.append('mapping')
+        for o in opts:
+            attrs.append({'prefix': 'prefix=' + pname,
+                          'sort': 'sort=x'}.get(o, o))
+        if batch:
+            attrs.append(BATCHES[batch][0])
+        src = ('<dtml-try><<dtml-in seq %s><dtml-var sequence-index>'
+               '<dtml-var boom><dtml-else>EMPTY</dtml-in>><dtml-except>'
+               'caught</dtml-try>{<dtml-var x missing="-">,<dtml-var '
+               'sequence-index missing="-">,<dtml-var %s_index missing="-">,'
+               '<dtml-var sequence-item missing="-">}'
+               % (' '.join(attrs), pname))
+        t = _t[key] = HTML(src)
     if t is None:
         from DocumentTemplate import HTML
         attrs = []
@@ -321,6 +347,18 @@ def one(res, case, xs):
                             ':batch' if batch else ''),
                         {'xs': xs, 'container': cont, 'got': repr(again),
                          'expected': exp}, dict(case, xs=list(xs)))
+    if got == exp and case.get('pname', 'p') == 'p':
+        seq2 = container(cont, elements(kind, xs))
+        try:
+            ab = template(kind, opts, batch, 'p', True)(seq=seq2, boom=_boom)
+        except Exception as e:
+            ab = e
+        want = ('caught' if xs else '<EMPTY>') + '{-,-,-,-}'
+        if ab != want:
+            res.violate('aborted-loop', 'aborted:%s:%s%s' % (
+                kind, '+'.join(opts) or 'plain', ':batch' if batch else ''),
+                {'xs': xs, 'container': cont, 'got': repr(ab),
+                 'expected': want}, dict(case, xs=list(xs)))
     if got != exp:
         what = first_difference(got, exp, kind, opts, batch)
         res.violate('sequence-variables',
